@@ -26,6 +26,18 @@ class Ctx:
     def table(self, name):
         return self.tables.get(name, {})
 
+    def is_reference_tree(self):
+        """Is /repo's src/ exactly one of the trees the tables were frozen on (pinned commit + this work's fix: commits)?"""
+        r = getattr(self, "_is_ref", None)
+        if r is None:
+            import extract
+            try:
+                h = extract.src_hash(getattr(self, "repo_dir", "/repo"))
+            except Exception:
+                h = None
+            r = self._is_ref = h in self.tables.get("reference", {}).get("src_hashes", [])
+        return r
+
 
 class Finding:
     def __init__(self, rule, key, msg, fn=None, span=None, path=None, extra=None):
@@ -69,7 +81,7 @@ class RuleResult:
         self.discharged += 1
         if nontrivial:
             self.nontrivial += 1
-        if sample is not None and len(self.samples) < 12:
+        if sample is not None and len(self.samples) < int(__import__("os").environ.get("CFBSA_SAMPLES","12")):
             self.samples.append(sample)
 
     def fail(self, finding, nontrivial=True):
@@ -176,6 +188,8 @@ class FnView:
                 if st["s"] == "assign" and st["place"]["local"] == 0 and not st["place"]["proj"] and st["rv"]["r"] == "aggregate" \
                         and st["rv"].get("variant") == "Err" and "Result" in st["rv"].get("adt", ""):
                     out.append(("s", bb, i))
+        for tag in self.fn.d.get("inlined_err", []):
+            out.append(tuple(tag))
         return out
 
     def call_nodes(self, pred):
